@@ -1,9 +1,14 @@
 package bx
 
 import (
+	stdecdsa "crypto/ecdsa"
 	"crypto/elliptic"
+	"crypto/sha256"
 	"crypto/sha512"
 	"fmt"
+	"math/big"
+
+	hpke "github.com/cisco/go-hpke"
 
 	"github.com/cloudflare/pat-go/ecdsa"
 	"github.com/cloudflare/pat-go/ed25519"
@@ -149,6 +154,45 @@ func BuildWorld(seedv int64) *World {
 	in := type3.VerifNewInner(w.W3.KeyID[0], mc.Fill(seedv, "innermsg", 256), type3.VerifPad("origin.example"))
 	w.Inner = append([]byte{}, in.Marshal()...)
 	return w
+}
+
+// CraftT3 assembles a type-3 request for issuer w with go-hpke and crypto/ecdsa directly:
+// the inner plaintext is whatever the caller passes (possibly malformed), correctly encrypted
+// to the issuer's name key with the right associated data and correctly signed.
+func CraftT3(seedv int64, w *px.W3, label string, innerPlain []byte) []byte {
+	nk, err := w.ClientNameKey()
+	if err != nil {
+		panic(err)
+	}
+	id, suite, pk := nk.VerifParts()
+	c := elliptic.P384()
+	d := new(big.Int).SetBytes(mc.Fill(seedv, "craft-key-"+label, 56))
+	d.Mod(d, new(big.Int).Sub(c.Params().N, big.NewInt(1)))
+	d.Add(d, big.NewInt(1))
+	x, y := c.ScalarBaseMult(d.Bytes())
+	rk := elliptic.MarshalCompressed(c, x, y)
+	enc, ctx, err := hpke.SetupBaseS(suite, mc.NewStream(seedv, "craft-hpke-"+label), pk, []byte("TokenRequest"))
+	if err != nil {
+		panic(err)
+	}
+	kid := sha256.Sum256(nk.Marshal())
+	aad := []byte{id, byte(suite.KEM.ID() >> 8), byte(suite.KEM.ID()), byte(suite.KDF.ID() >> 8), byte(suite.KDF.ID()), byte(suite.AEAD.ID() >> 8), byte(suite.AEAD.ID()), 0x00, 0x03}
+	aad = append(aad, rk...)
+	aad = append(aad, kid[:]...)
+	encrypted := append(append([]byte{}, enc...), ctx.Seal(aad, innerPlain)...)
+	msg := append([]byte{0x00, 0x03}, rk...)
+	msg = append(msg, kid[:]...)
+	msg = append(msg, byte(len(encrypted)>>8), byte(len(encrypted)))
+	msg = append(msg, encrypted...)
+	dg := sha512.Sum384(msg)
+	r, s, err := stdecdsa.Sign(mc.NewStream(seedv, "craft-sign-"+label), &stdecdsa.PrivateKey{PublicKey: stdecdsa.PublicKey{Curve: c, X: x, Y: y}, D: d}, dg[:])
+	if err != nil {
+		panic(err)
+	}
+	sig := make([]byte, 96)
+	r.FillBytes(sig[:48])
+	s.FillBytes(sig[48:])
+	return append(msg, sig...)
 }
 
 func VarintWidth(b []byte) int { return 1 << (b[0] >> 6) }
